@@ -92,6 +92,8 @@ def configs(tier):
     for rows, J, R in [((2, 2), 2, 1), ((2, 3), 2, 1), ((2, 2), 2, 2)] + ([] if q else [((3, 2), 3, 2)]):
         for norm in (0, 1):
             add("parafac2", rows=rows, J=J, R=R, norm=norm, K=2)
+        if R == 1 or max(rows) == 2:
+            add("parafac2", rows=rows, J=J, R=R, norm=0, K=1, init="user_w")
     return out
 
 
@@ -147,7 +149,7 @@ def h_cp_exits(E, cfg):
         backend.patch(_nn, "hals_nnls", stub_hals)
     nonneg = alg != "parafac"
     X = E.real("X", shp, nn=nonneg)
-    E.assume(E.Or([E.Not(E.eq(x, 0)) for x in np.asarray(X, dtype=object).ravel()]))
+    E.assume(E.Or([E.nonzero(x) for x in np.asarray(X, dtype=object).ravel()]))
     kw = dict(n_iter_max=K, normalize_factors=bool(norm), cvg_criterion=crit)
     if K > 0:
         kw["tol"] = E.real("tol", pos=True)
@@ -327,8 +329,20 @@ def h_parafac2(E, cfg):
         backend.patch(_p2t, "_validate_parafac2_tensor", validate_stub)
     slices = [E.real(f"X{i}", (n, J)) for i, n in enumerate(rows)]
     allx = [x for sl in slices for x in np.asarray(sl, dtype=object).ravel()]
-    E.assume(E.Or([E.Not(E.eq(x, 0)) for x in allx]))
-    res = parafac2([np.array(sl) for sl in slices], R, n_iter_max=K, init="svd", tol=1e-30, n_iter_parafac=1, linesearch=False, normalize_factors=bool(norm))
+    E.assume(E.Or([E.nonzero(x) for x in allx]))
+    init = "svd"
+    if cfg.get("init") == "user_w":
+        # warm start from a decomposition with non-unit weights (e.g. an earlier normalised result)
+        w0 = E.real("w0", (R,), nonzero=True)
+        A0 = E.real("A0", (len(rows), R))
+        B0 = E.real("B0", (R, R))
+        C0 = E.real("C0", (J, R))
+        if E.symbolic:
+            P0 = [backend.givens_frame(n, R, f"P0_{i}_") for i, n in enumerate(rows)]
+        else:
+            P0 = [np.linalg.qr(np.arange(1.0, n * R + 1).reshape(n, R) ** 1.5 + np.eye(n, R))[0] for n in rows]
+        init = (np.array(w0), [np.array(A0), np.array(B0), np.array(C0)], [np.array(p_) for p_ in P0])
+    res = parafac2([np.array(sl) for sl in slices], R, n_iter_max=K, init=init, tol=1e-30, n_iter_parafac=1, linesearch=False, normalize_factors=bool(norm))
     w, (A, B, C), projs = res
     I = len(rows)
     ok = np.shape(A) == (I, R) and np.shape(B) == (R, R) and np.shape(C) == (J, R) and len(projs) == I and all(np.shape(p) == (n, R) for p, n in zip(projs, rows))
